@@ -470,8 +470,11 @@ class cpr_drs {
 
             auto App = std::make_shared<build_matrix_p>();
             App->set_size(np, np, true);
-            App->set_nonzeros(K->nnz);
-            App->ptr[0] = 0;
+            // Only the active columns belong to the pressure matrix
+            for (ptrdiff_t i = 0; i < static_cast<ptrdiff_t>(np); ++i)
+                for(ptrdiff_t j = K->ptr[i]; j < K->ptr[i + 1]; ++j)
+                    if (K->col[j] < static_cast<ptrdiff_t>(np)) ++App->ptr[i+1];
+            App->set_nonzeros(App->scan_row_sizes());
 
 #pragma omp parallel for
             for (ptrdiff_t i = 0; i < static_cast<ptrdiff_t>(np); ++i) {
@@ -486,7 +489,6 @@ class cpr_drs {
 
                 ptrdiff_t row_beg = K->ptr[i];
                 ptrdiff_t row_end = K->ptr[i + 1];
-                App->ptr[i+1] = row_end;
 
                 value_type_p *d = &fpp->val[i * B];
                 const double *w = prm.weights.empty() ? nullptr : &prm.weights[i * B];
@@ -498,6 +500,9 @@ class cpr_drs {
                 for(ptrdiff_t j = row_beg; j < row_end; ++j) {
                     ptrdiff_t  c = K->col[j];
                     value_type v = K->val[j];
+
+                    // inactive columns take no part (as in the scalar path)
+                    if (c >= static_cast<ptrdiff_t>(np)) continue;
 
                     for(int k = 0; k < B; ++k) {
                         a_top[k] += std::abs(v(0,k));
@@ -521,14 +526,18 @@ class cpr_drs {
                     }
                 }
 
+                ptrdiff_t head = App->ptr[i];
                 for(ptrdiff_t j = row_beg; j < row_end; ++j) {
-                    App->col[j] = K->col[j];
+                    if (K->col[j] >= static_cast<ptrdiff_t>(np)) continue;
+
+                    App->col[head] = K->col[j];
 
                     value_type_p app = 0;
                     for(int k = 0; k < B; ++k)
                         app += d[k] * K->val[j](k,0);
 
-                    App->val[j] = app;
+                    App->val[head] = app;
+                    ++head;
                 }
             }
 
@@ -584,6 +593,9 @@ class cpr_drs {
                 for(ptrdiff_t j = row_beg; j < row_end; ++j) {
                     ptrdiff_t  c = K->col[j];
                     value_type v = K->val[j];
+
+                    // inactive columns take no part (as in the scalar path)
+                    if (c >= static_cast<ptrdiff_t>(np)) continue;
 
                     for(int k = 0; k < B; ++k) {
                         a_top[k] += std::abs(v(0,k));
